@@ -4,7 +4,11 @@
    empty); CDATA / text tokens are their source slices; the DOCTYPE and the prolog / epilog deliver only
    comments, PIs (and entity declarations); a start tag delivers ElementStart, attributes, one ElementEnd.
    The XML declaration has no callback at all.  Document-level token shape: Proofs/RejectProofs.v.
-   The composition 'rendering of an abstract document parses to its tree' is not proved (correspondence).
+   Completeness on the fragment of Spec/Cst.v (ASCII names and content, no DOCTYPE, references, namespaces, CR): every
+   rendering of a well-formed abstract document -- with any layout choices: whitespace in tags, quote style,
+   empty-element syntax, prolog / epilog comments and PIs -- parses to exactly its meaning (view = sem:
+   kinds, names, attributes in order with values, comment text, PI target / value, text, children counts), so two
+   renderings with the same meaning give the same tree (layout_insensitive).  view is defined in Proofs/CstMain.v.
    Statements are pinned here (copied verbatim from the proof files by tools/pin_props.py);
    each is re-proved by `exact` and followed by Print Assumptions. *)
 From Coq Require Import Ascii String.
@@ -12,11 +16,36 @@ From Coq Require Import List NArith Bool PeanoNat Sorted.
 Import ListNotations.
 From RX Require Import Generated.
 From RX.Model Require Import Base CharClass Stream Tokenizer Doc Builder Parse Api.
-From RX.Proofs Require Import LexerProofs RejectProofs.
+From RX.Spec Require Cst.
+From RX.Proofs Require Import LexerProofs RejectProofs CstMain.
 Open Scope N_scope.
 
+(* ---- Proofs/CstMain.v ---- *)
+Theorem C03_parse_render_sem :
+  forall (c : Cst.doc) (opt : options),
+  Cst.wf_doc c = true ->
+  N.of_nat (length (Cst.sem c)) < nodes_limit opt ->          (* room for all nodes + the Root *)
+  N.of_nat (length (Cst.render c)) <= u32_max ->               (* the input is at most u32::MAX bytes long *)
+  exists d, parse (Cst.render c) opt = Ok d /\
+            view (Cst.render c) d = Cst.sem c /\
+            (* no namespaces in this fragment *)
+            (forall nd ns local ar nss, In nd (d_nodes d) -> nd_kind nd = KElement ns local ar nss -> ns = None) /\
+            (forall a, In a (d_attrs d) -> ad_ns_idx a = None).
+Proof. exact parse_render_sem. Qed.
+Print Assumptions C03_parse_render_sem.
+
+Theorem C03_layout_insensitive :
+  forall c1 c2 opt,
+  Cst.wf_doc c1 = true -> Cst.wf_doc c2 = true -> Cst.sem c1 = Cst.sem c2 ->
+  N.of_nat (length (Cst.sem c1)) < nodes_limit opt ->
+  N.of_nat (length (Cst.render c1)) <= u32_max -> N.of_nat (length (Cst.render c2)) <= u32_max ->
+  exists d1 d2, parse (Cst.render c1) opt = Ok d1 /\ parse (Cst.render c2) opt = Ok d2 /\
+                view (Cst.render c1) d1 = view (Cst.render c2) d2.
+Proof. exact layout_insensitive. Qed.
+Print Assumptions C03_layout_insensitive.
+
 (* ---- Proofs/LexerProofs.v ---- *)
-Module G0.
+Module G1.
 Local Notation token := Tokenizer.token.
 Theorem C03_parse_comment_post :
   forall (text : bytes), forall s acc s' acc', SInv text s ->
@@ -103,10 +132,10 @@ Theorem C03_parse_element_tokens :
 Proof. exact parse_element_tokens. Qed.
 Print Assumptions C03_parse_element_tokens.
 
-End G0.
+End G1.
 
 (* ---- Proofs/RejectProofs.v ---- *)
-Module G1.
+Module G2.
 Local Notation token := Tokenizer.token.
 Theorem C03_ok_document_shape :
   forall text dtd toks,
@@ -127,4 +156,4 @@ Theorem C03_ok_no_text_before_root :
 Proof. exact ok_no_text_before_root. Qed.
 Print Assumptions C03_ok_no_text_before_root.
 
-End G1.
+End G2.
